@@ -565,3 +565,16 @@ func sortedKeys[M ~map[string]V, V any](m M) []string {
 	sort.Strings(ks)
 	return ks
 }
+
+// fnBase is the function's declared name without type arguments:
+// "At[formula.Expression]" -> "At".
+func fnBase(f *ssa.Function) string {
+	if f == nil {
+		return ""
+	}
+	n := f.Name()
+	if i := strings.IndexByte(n, '['); i >= 0 {
+		n = n[:i]
+	}
+	return n
+}
